@@ -224,7 +224,7 @@ pub fn c17(u: &mut Unstructured) -> C17Case {
     a.bits.0.truncate(300);
     let into_iter = bool_(u);
     let rev = bool_(u);
-    let term = [Terminal::Count, Terminal::Last, Terminal::Collect, Terminal::Drain][below(u, 4)];
+    let term = [Terminal::Count, Terminal::Last, Terminal::Collect, Terminal::Drain, Terminal::Fold, Terminal::Rfold, Terminal::Adaptors][below(u, 7)];
     let ksel = |u: &mut Unstructured| match below(u, 17) {
         15 | 16 => KSel::Pow2Plus(below(u, 64) as u8, below(u, 12) as u8),
         12..=14 => KSel::Frac(u16_(u)),
